@@ -41,12 +41,22 @@ def run_seed(k, wt, hd, td, d):
     sid = os.path.basename(d.rstrip("/"))
     clean = sid.startswith("CLEAN-")          # pseudo seed `CLEAN-Cxx`: the property's check against the UNCHANGED HEAD, in the scratch worktree
     prop = sid[6:9] if clean else sid[:3]
+    props = [prop]
     if not clean:
+        try:
+            import json as _json
+            props = _json.load(open(os.path.join(d, "meta.json"))).get("checks") or [prop]     # a seed may name the checks that decide it
+        except Exception:
+            pass
         patch = os.path.abspath(os.path.join(d, "patch.diff"))
         rc, out = sh(["git", "-C", wt, "apply", patch])
         if rc != 0:
             rc, out = sh(["git", "-C", wt, "apply", "--3way", patch])
-            if rc != 0:
+            conflict = rc != 0 or "<<<<<<<" in sh(["git", "-C", wt, "diff"])[1]
+            if conflict:
+                # leave the worker's tree clean for the next seed
+                sh(["git", "-C", wt, "reset", "-q", "--hard", "HEAD"])
+                sh(["git", "-C", wt, "clean", "-fdq"])
                 return sid, "PATCH DOES NOT APPLY", ""
     try:
         rc, out = sh(["cargo", "build", "--release", "--offline", "--quiet"], cwd=hd, env={"CARGO_NET_OFFLINE": "true"}, timeout=3000)
@@ -54,7 +64,10 @@ def run_seed(k, wt, hd, td, d):
             return sid, "BUILD FAILED", out[-300:]
         env = {"VJX_HARNESS": td + "/release/vjx-harness", "VJX_SKIP_BUILD": "1", "VJX_EVIDENCE_DIR": "%s/e%d" % (ROOT, k),
                "VJX_REPLAY_DIR": "%s/r%d" % (ROOT, k)}
-        rc, out = sh([os.path.join(VERIF, "check"), prop], cwd=VERIF, env=env, timeout=7200)
+        out = ""
+        for pr in props:
+            rc, o1 = sh([os.path.join(VERIF, "check"), pr], cwd=VERIF, env=env, timeout=7200)
+            out += o1
         vio = [l for l in out.splitlines() if l.startswith("VIOLATION")]
         hard = [l for l in vio if "no-failing-input-found" not in l]
         if clean:
